@@ -190,7 +190,7 @@ func socksServerNegatives(auth bool) [][]byte {
 
 func socksGroups(th bool) []*group {
 	var gs []*group
-	L := 6
+	L := 7
 	if th {
 		L = 9
 	}
